@@ -434,6 +434,34 @@ theorem C19_total (c : Costs) (pl : Placement) (ls : List ELayer)
     · rw [← h.1, h1]; simp
     · rw [← h.2, h2]; simp
 
+/-- the report row of a layer is a function of the call's options and of THAT layer alone: whatever
+    layers are processed before it (output layers included) and after it, its row is its own rounded
+    entry under the placement passed to the call -/
+theorem C19_row_local (c : Costs) (pl : Placement) (l : ELayer) (pre post : List ELayer)
+    (res : List (String × Entry)) (T : ℤ)
+    (h : energyEstimate c pl (pre ++ l :: post) = some (res, T)) :
+    ∃ e, layerEntry c pl l = some e ∧ res[pre.length]? = some (l.className, e.round) := by
+  obtain ⟨es, hf, hres, -⟩ := C19_total c pl _ res T h
+  rw [List.forall₂_iff_get] at hf
+  obtain ⟨hlen, hget⟩ := hf
+  have hi : pre.length < (pre ++ l :: post).length := by simp
+  have hi' : pre.length < es.length := hlen ▸ hi
+  have hl : (pre ++ l :: post).get ⟨pre.length, hi⟩ = l := by simp
+  have he := hget pre.length hi hi'
+  rw [hl] at he
+  refine ⟨es.get ⟨pre.length, hi'⟩, he, ?_⟩
+  rw [hres, List.getElem?_zipWith]
+  simp [List.getElem?_eq_getElem hi']
+
+/-- **histories on one QTools object**: in a session of `pe` calls the k-th report is the report of a
+    single first call with the k-th options — no earlier call (same or different `rd_wr_on_io`,
+    placement, `min_sram_size`) can change it -/
+theorem C19_pe_session_history_free (c : Costs) (ls : List ELayer) (before after : List Placement)
+    (pl : Placement) :
+    (peSession c ls (before ++ pl :: after))[before.length]? = some (energyEstimate c pl ls) ∧
+    peSession c ls [pl] = [energyEstimate c pl ls] := by
+  simp [peSession]
+
 /-- With well-formed layers the truncation is the floor of a non-negative sum. -/
 theorem C19_total_floor (c : Costs) (pl : Placement) (ls : List ELayer)
     (res : List (String × Entry)) (T : ℤ) (hm : 0 ≤ c.sramMulFactor)
@@ -506,6 +534,55 @@ theorem C19_extract_keys (cfg : List (String × List EKey)) (cls : String) :
   constructor
   · intro ks h; simp [selectKeys, h]
   · intro h; simp [selectKeys, h]
+
+/-- A class mapped to the EMPTY list selects nothing — whatever the "default" list says ("count
+    nothing for this class"); a class the setting does not mention, in a setting without "default",
+    selects nothing either.  In both cases the layer contributes 0 to the sum and to its profile total. -/
+theorem C19_extract_empty (cfg : List (String × List EKey)) (cls : String) (e : Entry) :
+    (cfg.lookup cls = some [] → selectKeys cfg cls = [] ∧ layerTotal cfg cls e = 0) ∧
+    (cfg.lookup cls = none → cfg.lookup "default" = none →
+        selectKeys cfg cls = [] ∧ layerTotal cfg cls e = 0) := by
+  constructor
+  · intro h; simp [layerTotal, selectKeys, h]
+  · intro h hd; simp [layerTotal, selectKeys, h, hd]
+
+/-- A setting in which every class of the report is mapped to the empty list extracts 0, for every
+    "default" list. -/
+theorem C19_extract_all_empty (cfg : List (String × List EKey)) (d : List (String × Entry))
+    (h : ∀ r ∈ d, cfg.lookup r.1 = some []) :
+    extractSum cfg d = 0 ∧ ∀ t ∈ extractProfile cfg d, t = 0 := by
+  have hz : ∀ r ∈ d, layerTotal cfg r.1 r.2 = 0 := fun r hr =>
+    ((C19_extract_empty cfg r.1 r.2).1 (h r hr)).2
+  have hp : ∀ t ∈ extractProfile cfg d, t = 0 := by
+    intro t ht
+    simp only [extractProfile, List.mem_map] at ht
+    obtain ⟨r, hr, rfl⟩ := ht
+    exact hz r hr
+  refine ⟨?_, hp⟩
+  rw [(C19_extract cfg d).2, List.sum_eq_zero hp, truncInt_of_nonneg le_rfl]
+  simp
+
+/-- Keys of the setting that name no class of the report (and are not "default") are irrelevant:
+    adding such a key changes neither the selected keys of any layer nor the sum nor the profile. -/
+theorem C19_extract_absent_class (cfg : List (String × List EKey)) (d : List (String × Entry))
+    (c : String) (ks : List EKey) (hc : ∀ r ∈ d, r.1 ≠ c) (hdef : c ≠ "default") :
+    extractProfile ((c, ks) :: cfg) d = extractProfile cfg d ∧
+    extractSum ((c, ks) :: cfg) d = extractSum cfg d := by
+  have hk : ∀ r ∈ d, selectKeys ((c, ks) :: cfg) r.1 = selectKeys cfg r.1 := by
+    intro r hr
+    have h1 : (r.1 == c) = false := by simpa using hc r hr
+    have h2 : (("default" : String) == c) = false := by simpa using fun h => hdef h.symm
+    simp [selectKeys, List.lookup_cons, h1, h2]
+  have hp : extractProfile ((c, ks) :: cfg) d = extractProfile cfg d := by
+    simp only [extractProfile]
+    apply List.map_congr_left
+    intro r hr
+    simp [layerTotal, hk r hr]
+  exact ⟨hp, by rw [(C19_extract _ d).2, (C19_extract cfg d).2, hp]⟩
+
+example : selectKeys [("QActivation", []), ("default", [.inputs, .opCost])] "QActivation" = [] ∧
+    selectKeys [("QActivation", []), ("default", [.inputs, .opCost])] "QDense" = [.inputs, .opCost] ∧
+    selectKeys [("QActivation", [.outputs])] "QDense" = [] := by decide
 
 /-! ### each entry is the documented function of types, counts, sizes and placement -/
 
